@@ -4,7 +4,7 @@ import os
 
 import mir
 from mir import callee
-from common import controlling_edges, switch_expr, switch_meaning, const_value
+from common import *  # noqa: F401,F403
 from robs_common import *  # noqa: F401,F403
 
 EXPLANATION = (
@@ -309,7 +309,7 @@ def r13_5(ck, F):
             stores = [(bb, i) for bb, i, s in b.field_stores("done")]
             ok = bool(dones) and bool(stores)
             for bb, i in dones + stores:
-                ce = [(switch_expr(b, s), switch_meaning(b, s, v)) for s, tb, v in controlling_edges(b, bb)]
+                ce = conds(b, bb)
                 ok = ok and any(mir.last_field(e) == "done" and m is False for e, m in ce)
             ck.expect(ok, f"{short}::done", "Done emitted and flag set under !self.done",
                       f"{short}::done does not guard the Done event / flag with !self.done", b.loc(0))
@@ -367,7 +367,10 @@ def r13_7(ck, F):
             raise mir.AnchorMissing(f"{mirror_inner} construction in {sub}::mirror")
         bb, i, rv = aggs[0]
         e = b.expr(rv["ops"][rv["fields"].index("done")])
-        bare = e[0] == "call" and e[1].endswith("Subscription::is_done")
+        # the flag's value must depend on completeness of the initial value (directly or through is_complete())
+        involves_complete = any("complete" in x.split(".")[-1] for x in mir.paths_in(e)) or \
+            any("is_complete" in c[1] for c in mir.calls_in(e))
+        bare = not involves_complete
         task = F.bodies.get(f"{sub}::mirror::{{closure#0}}")
         guard_ok = False
         if task is not None:
